@@ -21,21 +21,23 @@ import (
 // predicts an error.
 
 type cliCase struct {
-	Ali        gen.Ali `json:"ali"`
-	Kind       string  `json:"kind"` // window | pos | unique
-	UseRef     bool    `json:"use_ref"`
-	Ref        string  `json:"ref"`
-	Start      int     `json:"start"`
-	Len        int     `json:"len"`
-	Pos        []int   `json:"pos"`
-	SetReplace bool    `json:"set_replace"`
-	Replace    string  `json:"replace"`
-	NoGap      bool    `json:"nogap"`
-	NoRef      bool    `json:"noref"`
-	SetAtMost  bool    `json:"set_at_most"`
-	AtMost     int     `json:"at_most"`
-	Auto       bool    `json:"auto_alphabet"` // let goalign detect the alphabet
-	Extra      bool    `json:"extra"`         // --unique together with the flags documented as ignored
+	Ali        gen.Ali   `json:"ali"`
+	Kind       string    `json:"kind"` // window | pos | unique
+	UseRef     bool      `json:"use_ref"`
+	Ref        string    `json:"ref"`
+	Start      int       `json:"start"`
+	Len        int       `json:"len"`
+	Pos        []int     `json:"pos"`
+	SetReplace bool      `json:"set_replace"`
+	Replace    string    `json:"replace"`
+	NoGap      bool      `json:"nogap"`
+	NoRef      bool      `json:"noref"`
+	SetAtMost  bool      `json:"set_at_most"`
+	AtMost     int       `json:"at_most"`
+	Auto       bool      `json:"auto_alphabet"` // let goalign detect the alphabet
+	Extra      bool      `json:"extra"`         // --unique together with the flags documented as ignored
+	More       []gen.Ali `json:"more"`          // further alignments of the input file (then a Phylip stream, -p)
+	Layout     int       `json:"layout"`        // Phylip output layout: 0 default, 1 --one-line, 2 --no-block, 3 both
 }
 
 var cliNt = []string{"ACGT--", "AC-", "ACGTN--", "ACacGT--"}
@@ -136,14 +138,48 @@ func genCLI(t *rapid.T) cliCase {
 		}
 	}
 	c.Auto = decides && rapid.Bool().Draw(t, "auto")
+	// several alignments in one (Phylip) input file: the command loops over them
+	if uni(t, 3, "multi") == 0 {
+		n := 1 + uni(t, 2, "nmore")
+		for i := 0; i < n; i++ {
+			rowsN := len(c.Ali.Rows)
+			if rowsN > 1 && uni(t, 8, "fewer") == 0 {
+				rowsN--
+			}
+			c.More = append(c.More, gen.Columnwise(t, chars, rowsN, rowsN, 1, 12, alphabet))
+		}
+		c.Layout = uni(t, 4, "layout")
+		c.Auto = false
+	}
 	return c
 }
 
 func checkCLI(dir string, c cliCase) (o pbt.Outcome, err error) {
-	rows, l := c.Ali.Rows, aliLen(c.Ali)
-	in := cli.TempFile(dir, ".fa", cli.Fasta(rows))
+	rows := c.Ali.Rows
+	multi := len(c.More) > 0
+	in := ""
+	if multi {
+		all := [][]gen.Row{rows}
+		for _, a := range c.More {
+			all = append(all, a.Rows)
+		}
+		in = cli.TempFile(dir, ".phy", cli.Phylip(all...))
+	} else {
+		in = cli.TempFile(dir, ".fa", cli.Fasta(rows))
+	}
 	defer os.Remove(in)
 	args := []string{"mask", "-i", in}
+	if multi {
+		args = append(args, "-p")
+		switch c.Layout {
+		case 1:
+			args = append(args, "--one-line")
+		case 2:
+			args = append(args, "--no-block")
+		case 3:
+			args = append(args, "--one-line", "--no-block")
+		}
+	}
 	if !c.Auto {
 		args = append(args, "--alphabet", c.Ali.Alphabet)
 	}
@@ -159,91 +195,11 @@ func checkCLI(dir string, c cliCase) (o pbt.Outcome, err error) {
 	if c.NoRef {
 		args = append(args, "--no-ref")
 	}
-	refName := ""
-	ref := -1
-	if c.UseRef {
-		refName = c.Ref
-		ref = rowIndex(rows, c.Ref)
-	}
-	_, _, modeOK := replacement(c.Replace, c.Ali.Alphabet)
-	var m maskModel
-	o.Class("cli kind=%s ref=%v", c.Kind, c.UseRef)
-	o.Class("cli mode=%s", modeKind(c.Replace))
 	switch c.Kind {
 	case "window":
 		args = append(args, "-s", fmt.Sprint(c.Start), "-l", fmt.Sprint(c.Len))
-		if !c.UseRef {
-			m = modelMask(&o, c.Ali, "", c.Start, c.Len, c.Replace, c.NoGap, c.NoRef)
-			o.Class("cli window=%s", windowKind(l, c.Start, c.Len))
-			break
-		}
-		var p []int
-		if ref >= 0 {
-			p = nonGap(rows[ref].Seq)
-		}
-		switch {
-		case ref < 0 || c.Start < 0 || c.Len < 0 || c.Start+c.Len > len(p) || !modeOK:
-			m = maskModel{Err: true}
-			o.Class("cli refwindow:refused")
-		case c.Len == 0:
-			// nothing requested on the reference: refused or nothing masked
-			o.Ambiguous++
-			m = maskModel{ErrOK: true, Cols: map[int]colRule{}}
-			o.Class("cli refwindow:empty")
-		default:
-			ws, wn := p[c.Start], p[c.Start+c.Len-1]-p[c.Start]+1
-			m = modelMask(&o, c.Ali, refName, ws, wn, c.Replace, c.NoGap, c.NoRef)
-			if wn > c.Len {
-				o.Class("cli refwindow:valid-gap-of-reference-inside")
-			} else {
-				o.Class("cli refwindow:valid")
-			}
-		}
 	case "pos":
 		args = append(args, "--pos", strings.Join(itoas(c.Pos), ","))
-		var p []int
-		if ref >= 0 {
-			p = nonGap(rows[ref].Seq)
-		}
-		var cols []int
-		m = maskModel{}
-		for _, q := range c.Pos {
-			switch {
-			case !modeOK, c.UseRef && (ref < 0 || q < 0 || q >= len(p)), !c.UseRef && (q < 0 || q > l):
-				m.Err = true
-			case !c.UseRef && q == l:
-				m.ErrOK = true
-				o.Ambiguous++
-			case c.UseRef:
-				cols = append(cols, p[q])
-			default:
-				cols = append(cols, q)
-			}
-		}
-		if !m.Err {
-			m.Cols = maskColumns(&o, rows, c.Ali.Alphabet, ref, cols, c.Replace, c.NoGap, c.NoRef)
-		}
-		if !m.Err && c.UseRef && !c.NoRef && len(c.Pos) > 1 {
-			// an earlier position turns the reference residue into a gap and a later position is not smaller:
-			// every position must still be read on the reference as given (defect repaired by 4edb852)
-			shifted := false
-			for i, q := range c.Pos {
-				if !strings.Contains(m.Cols[p[q]].Reps, "-") {
-					continue
-				}
-				for _, q2 := range c.Pos[i+1:] {
-					shifted = shifted || q <= q2
-				}
-			}
-			if shifted {
-				o.Class("cli pos:reference-residue-gapped-before-a-later-position")
-			}
-		}
-		if len(c.Pos) > 1 {
-			o.Class("cli pos:several")
-		} else {
-			o.Class("cli pos:one")
-		}
 	case "unique":
 		args = append(args, "--unique")
 		if c.SetAtMost {
@@ -252,41 +208,180 @@ func checkCLI(dir string, c cliCase) (o pbt.Outcome, err error) {
 		if c.Extra {
 			args = append(args, "-s", fmt.Sprint(c.Start), "-l", fmt.Sprint(c.Len))
 		}
-		m = modelOccurences(&o, c.Ali, refName, c.AtMost, c.Replace)
-		if c.Extra {
-			o.Class("cli unique:with-ignored-flags")
+	}
+	o.Class("cli kind=%s ref=%v", c.Kind, c.UseRef)
+	o.Class("cli mode=%s", modeKind(c.Replace))
+	_, _, modeOK := replacement(c.Replace, c.Ali.Alphabet)
+	// plan: the model's prediction for one alignment of the input
+	plan := func(o *pbt.Outcome, a gen.Ali) (m maskModel) {
+		rows, l := a.Rows, aliLen(a)
+		refName := ""
+		ref := -1
+		if c.UseRef {
+			refName = c.Ref
+			ref = rowIndex(rows, c.Ref)
 		}
+		switch c.Kind {
+		case "window":
+			if !c.UseRef {
+				m = modelMask(o, a, "", c.Start, c.Len, c.Replace, c.NoGap, c.NoRef)
+				o.Class("cli window=%s", windowKind(l, c.Start, c.Len))
+				break
+			}
+			var p []int
+			if ref >= 0 {
+				p = nonGap(rows[ref].Seq)
+			}
+			switch {
+			case ref < 0 || c.Start < 0 || c.Len < 0 || c.Start+c.Len > len(p) || !modeOK:
+				m = maskModel{Err: true}
+				o.Class("cli refwindow:refused")
+			case c.Len == 0:
+				// nothing requested on the reference: refused or nothing masked
+				o.Ambiguous++
+				m = maskModel{ErrOK: true, Cols: map[int]colRule{}}
+				o.Class("cli refwindow:empty")
+			default:
+				ws, wn := p[c.Start], p[c.Start+c.Len-1]-p[c.Start]+1
+				m = modelMask(o, a, refName, ws, wn, c.Replace, c.NoGap, c.NoRef)
+				if wn > c.Len {
+					o.Class("cli refwindow:valid-gap-of-reference-inside")
+				} else {
+					o.Class("cli refwindow:valid")
+				}
+			}
+		case "pos":
+			var p []int
+			if ref >= 0 {
+				p = nonGap(rows[ref].Seq)
+			}
+			var cols []int
+			m = maskModel{}
+			for _, q := range c.Pos {
+				switch {
+				case !modeOK, c.UseRef && (ref < 0 || q < 0 || q >= len(p)), !c.UseRef && (q < 0 || q > l):
+					m.Err = true
+				case !c.UseRef && q == l:
+					m.ErrOK = true
+					o.Ambiguous++
+				case c.UseRef:
+					cols = append(cols, p[q])
+				default:
+					cols = append(cols, q)
+				}
+			}
+			if !m.Err {
+				m.Cols = maskColumns(o, rows, a.Alphabet, ref, cols, c.Replace, c.NoGap, c.NoRef)
+			}
+			if !m.Err && c.UseRef && !c.NoRef && len(c.Pos) > 1 {
+				// an earlier position turns the reference residue into a gap and a later position is not smaller:
+				// every position must still be read on the reference as given (defect repaired by 4edb852)
+				shifted := false
+				for i, q := range c.Pos {
+					if !strings.Contains(m.Cols[p[q]].Reps, "-") {
+						continue
+					}
+					for _, q2 := range c.Pos[i+1:] {
+						shifted = shifted || q <= q2
+					}
+				}
+				if shifted {
+					o.Class("cli pos:reference-residue-gapped-before-a-later-position")
+				}
+			}
+			if len(c.Pos) > 1 {
+				o.Class("cli pos:several")
+			} else {
+				o.Class("cli pos:one")
+			}
+		case "unique":
+			m = modelOccurences(o, a, refName, c.AtMost, c.Replace)
+			if c.Extra {
+				o.Class("cli unique:with-ignored-flags")
+			}
+		}
+		return
+	}
+	inputs := []gen.Ali{c.Ali}
+	models := []maskModel{plan(&o, c.Ali)}
+	for _, a := range c.More {
+		// `goalign mask` loops over the alignments of the stream: each one is judged with ITS model
+		var o2 pbt.Outcome
+		models = append(models, plan(&o2, a))
+		inputs = append(inputs, a)
+		o.Ambiguous += o2.Ambiguous
 	}
 	r := cli.Run("", args...)
 	what := fmt.Sprintf("goalign %s", strings.Join(args, " "))
+	showIn := gen.Show(rows)
+	for _, a := range c.More {
+		showIn += "| " + gen.Show(a.Rows)
+	}
 	if r.TimedOut {
-		return o, fmt.Errorf("%s (input %s) did not return", what, gen.Show(rows))
+		return o, fmt.Errorf("%s (input %s) did not return", what, showIn)
 	}
 	if strings.Contains(r.Stderr, "panic:") || strings.Contains(r.Stderr, "goroutine 1 [") {
-		return o, fmt.Errorf("%s (input %s) crashed:\n%s", what, gen.Show(rows), firstLines(r.Stderr, 10))
+		return o, fmt.Errorf("%s (input %s) crashed:\n%s", what, showIn, firstLines(r.Stderr, 10))
 	}
-	after := rows
-	var e error
-	if r.Exit != 0 {
-		e = fmt.Errorf("exit status %d: %s", r.Exit, firstLines(r.Stderr, 2))
-	} else if after, err = cli.ParseFasta(r.Stdout); err != nil {
-		return o, fmt.Errorf("%s: unreadable output: %v", what, err)
+	mustFail, mayFail := false, false
+	for _, m := range models {
+		mustFail = mustFail || m.Err
+		mayFail = mayFail || m.ErrOK
 	}
-	la := l
-	if len(after) > 0 {
-		la = len(after[0].Seq)
-	}
-	rewritten, kept, err := judge(m, rows, after, la, e, what)
-	if err != nil {
-		return
+	rewritten, kept := 0, 0
+	switch {
+	case r.Exit != 0:
+		if !mustFail && !mayFail {
+			return o, fmt.Errorf("%s (input %s) refused valid arguments: exit status %d: %s", what, showIn, r.Exit, firstLines(r.Stderr, 2))
+		}
+	case mustFail:
+		return o, fmt.Errorf("%s (input %s): the arguments are invalid for (one of) the alignment(s) but the status is 0; output:\n%s", what, showIn, firstLines(r.Stdout, 12))
+	default:
+		var stream [][]gen.Row
+		if multi {
+			if stream, err = cli.ParsePhylipStream(r.Stdout); err != nil {
+				return o, fmt.Errorf("%s: unreadable Phylip output: %v", what, err)
+			}
+		} else {
+			one, e := cli.ParseFasta(r.Stdout)
+			if e != nil {
+				return o, fmt.Errorf("%s: unreadable output: %v", what, e)
+			}
+			stream = [][]gen.Row{one}
+		}
+		if len(stream) != len(inputs) {
+			return o, fmt.Errorf("%s (input %s): %d alignments in, %d out", what, showIn, len(inputs), len(stream))
+		}
+		for k, after := range stream {
+			la := 0
+			if len(after) > 0 {
+				la = len(after[0].Seq)
+			}
+			rw, kp, e := judge(models[k], inputs[k].Rows, after, la, nil, fmt.Sprintf("%s, alignment %d of the input", what, k))
+			if e != nil {
+				return o, e
+			}
+			rewritten += rw
+			kept += kp
+		}
 	}
 	o.NonTrivial = rewritten > 0 && kept > 0
-	if m.Err {
+	if mustFail {
 		o.Class("cli:error-expected")
 	} else if rewritten > 0 {
 		o.Class("cli:some-rewritten")
 	} else {
 		o.Class("cli:nothing-rewritten")
+	}
+	if multi {
+		switch {
+		case models[0].Err:
+			o.Class("cli multi:refused-for-the-first-alignment")
+		case mustFail:
+			o.Class("cli multi:refused-for-a-later-alignment")
+		default:
+			o.Class("cli multi:valid-for-every-alignment")
+		}
 	}
 	if c.Auto {
 		o.Class("cli alphabet=auto")
